@@ -8,14 +8,17 @@
    result ([plain_items], [zod_items]).
    Specification (TT.Spec.C10Shape): [tshape], [zshape], [shape_agree], [nonjson], [rejects],
    [compare_modules].
-   The theorems named _partial speak about the syntax trees; the link  parse (string) = tree  is
-   checked by [C10_denotation_sweep] for every type of depth at most 2 and on every case of every
-   run of the correspondence check, not proved for all types. *)
+   The theorems named _partial speak about the syntax trees; the link  parse (string) = tree  is proved
+   for all in-domain types for the four renderers ([C10_plain_text_denotes], [C10_builder_text_denotes],
+   [C10_visitor_text_denotes]) and for the expression / type part of every member line
+   ([C10_shapes_field_text], [C10_shapes_param_text]); [C10_denotation_sweep] and the per-case run-time
+   check remain as independent evidence. Module level: [C10_modules]. *)
 From Coq Require Import String Ascii.
 From Coq Require Import List Arith Bool.
 Require Import TT.Model.Str TT.Model.TypeParse TT.Spec.TsLex TT.Spec.TsModule TT.Spec.TsObs.
 Require Import TT.Spec.C10Shape TT.Model.C10Zod TT.Spec.C10Check TT.Proofs.C10Proofs TT.Proofs.C10Items.
 Require Import TT.Proofs.C10ParseTy TT.Proofs.C10LexTy TT.Proofs.C10Oracle TT.Proofs.C10ParseEx TT.Proofs.C10LexEx TT.Proofs.C10Depth.
+Require Import TT.Model.C10ZodText TT.Proofs.C10LexVisit TT.Proofs.C10MemberText TT.Proofs.C10Modules TT.Proofs.C10ObjectText.
 Import ListNotations.
 
 (* ---- per key: the shape of the schema agrees with the shape of the declaration ---- *)
@@ -37,6 +40,56 @@ Theorem C10_shapes_param_partial : forall (m : mapping) (f : member),
   shape_agree (zshape (snd (zod_param m f))) (snd (tmember (plain_member m f))) = true.
 Proof. intros m f Hm. exact (param_agree m Hm f). Qed.
 
+(* ... the two member statements with both sides read from the text of the member line: the schema
+   expression the Zod templates paste after the key (parameter lines: with the template's own second
+   .optional()) and the type the plain templates paste after the key; the optional marker of the key is
+   the analysis flag [m_opt f] *)
+Theorem C10_shapes_field_text : forall (m : mapping) (f : member),
+  map_ok m = true -> clean (m_ty f) -> flag_ok f ->
+  nest (ts_ty_of m (m_ty f)) < TYF -> enest (zex_of m (m_ty f) false) < 64 ->
+  exists a b, parse_ex (zod_field_text m f) = Some a /\ parse_ty (plain_member_text m f) = Some b /\
+              shape_agree (zshape a) (mk_opt false (m_opt f) (tshape b)) = true.
+Proof. intros m f Hm. exact (field_agree_text m Hm f). Qed.
+Theorem C10_shapes_param_text : forall (m : mapping) (f : member),
+  map_ok m = true -> clean (m_ty f) -> flag_ok f ->
+  nest (ts_ty_of m (m_ty f)) < TYF -> enest (zex_of m (m_ty f) false) < 64 ->
+  exists a b, parse_ex (zod_param_text m f) = Some a /\ parse_ty (plain_member_text m f) = Some b /\
+              shape_agree (zshape a) (mk_opt false (m_opt f) (tshape b)) = true.
+Proof. intros m f Hm. exact (param_agree_text m Hm f). Qed.
+(* the parser reads the member trees of the model from the member texts *)
+Theorem C10_member_text_denotes : forall (m : mapping) (f : member),
+  map_ok m = true -> dom (m_ty f) = true ->
+  nest (ts_ty_of m (m_ty f)) < TYF -> enest (zex_of m (m_ty f) false) < 64 ->
+  parse_ex (zod_field_text m f) = Some (snd (zod_field m f)) /\
+  parse_ex (zod_param_text m f) = Some (snd (zod_param m f)) /\
+  parse_ty (plain_member_text m f) = Some (snd (plain_member m f)).
+Proof.
+  intros m f Hm Hd Hn He. split; [apply parse_field_text; assumption|]. split; [apply parse_param_text; assumption|].
+  apply parse_plain_member_text; assumption.
+Qed.
+
+(* ---- text level of a whole schema constant: the initialiser  z.object({ key: schema, ... })  as
+   schema.ts.tera (one line per field) and param_schemas.ts.tera (entries without separator, the second
+   .optional() of optional parameters) print it, trailing comma included, is read back by the specification
+   lexer and expression parser as the object tree of the model, for any number of members; keys that are
+   identifier names (quoted keys are not covered), member schemas within the nesting budget ---- *)
+Theorem C10_struct_schema_text_denotes : forall (m : mapping) (s : sdef),
+  map_ok m = true -> Forall (field_line_ok m) (s_fields s) ->
+  parse_ex (struct_schema_text m s) = Some (zcall "object" [EObj (map (zod_field m) (s_fields s))]).
+Proof. intros m s Hm. exact (parse_struct_schema m Hm s). Qed.
+Theorem C10_param_schema_text_denotes : forall (m : mapping) (c : cdef),
+  map_ok m = true -> Forall (field_line_ok m) (c_params c) ->
+  parse_ex (param_schema_text m c) = Some (zcall "object" [EObj (map (zod_param m) (c_params c))]).
+Proof. intros m c Hm. exact (parse_param_schema m Hm c). Qed.
+(* ... and the keys read from that text are the keys of the plain declaration *)
+Theorem C10_struct_schema_text_keys : forall (m : mapping) (s : sdef),
+  map_ok m = true -> Forall (field_line_ok m) (s_fields s) ->
+  exists a, parse_ex (struct_schema_text m s) = Some a /\
+            keys_of (zshape a) = member_keys (map (plain_member m) (s_fields s)).
+Proof.
+  intros m s Hm Hf. exists (zod_object (map (zod_field m) (s_fields s))). split; [exact (parse_struct_schema m Hm s Hf)|apply keys_struct].
+Qed.
+
 (* ---- string level, TypeScript side: for EVERY in-domain type whose Record/tuple nesting fits the
    specification parser's budget (TYF = 64 levels), lexing and parsing the text the plain renderer
    prints (and the text ZodVisitor::visit_type_for_interface prints) yields exactly the tree
@@ -54,6 +107,17 @@ Theorem C10_builder_text_denotes : forall (m : mapping) (t : tstruct) (key : boo
   map_ok m = true -> dom t = true -> enest (zex_of m t key) < 64 ->
   parse_ex (zbuild m t key) = Some (zex_of m t key).
 Proof. intros m t key Hm Hd Hn. apply parse_build; assumption. Qed.
+
+(* ---- string level, ZodVisitor::visit_type: structural induction, for EVERY in-domain type within the
+   budget (replaces the depth-2 sweep as the statement about zvisit); one depth premise gives the budget ---- *)
+Theorem C10_visitor_text_denotes : forall (m : mapping) (t : tstruct),
+  map_ok m = true -> dom t = true -> enest (zvisit_ex m t) < 64 ->
+  parse_ex (zvisit m t) = Some (zvisit_ex m t).
+Proof. intros m t Hm. exact (parse_visit m Hm t). Qed.
+Theorem C10_visitor_text_depth : forall (m : mapping) (t : tstruct),
+  map_ok m = true -> dom t = true -> tsdepth t < 30 ->
+  parse_ex (zvisit m t) = Some (zvisit_ex m t).
+Proof. intros m t Hm Hd Hdep. apply parse_visit; [exact Hm|exact Hd|apply visit_budget; exact Hdep]. Qed.
 
 (* ---- the shape theorem at string level (formerly C10_shapes_full_statement): both printed texts are
    read back by the specification lexer and parser and the shapes they denote agree ---- *)
@@ -175,13 +239,25 @@ Theorem C10_denotation_sweep :
   List.length (enum_types 2) = 637.
 Proof. exact denotation_sweep. Qed.
 
-(* ---- full statements, not asserted ---- *)
-(* module level: the oracle finds nothing on the model's two modules *)
-Definition C10_modules_full_statement : Prop := forall p : proj,
-  proj_dom p = true ->
-  (forall t, In t (member_types p) -> clean t /\ has_opt_t t = false) ->
-  NoDup (type_decls (plain_items p)) ->
-  v_tags (compare_modules (plain_items p) (zod_items p)) = [].
+(* ---- module level: the oracle finds nothing on the model's two modules (the former
+   C10_modules_full_statement, which was false as stated: see C10_modules_premises_needed) ----
+   [proj_ok p]: primitive mapping targets; every struct field and value parameter outside every class
+   (clean, no Option) with the optional flag off; channel message types in the domain without a union
+   under an array; enums with at least one variant; distinct serialised keys inside one struct / one
+   parameter object (parameters and channels together); non-empty command type names; distinct type
+   names. Proved through lookup lemmas under NoDup names (find_nth = the declaring item), for every
+   such analysis result; no premise on reachability from parameter schemas (the JSON clauses hold at
+   every key). *)
+Theorem C10_modules : forall p : proj,
+  proj_ok p -> v_tags (compare_modules (plain_items p) (zod_items p)) = [].
+Proof. exact modules_clean. Qed.
+(* each premise that the former statement lacked is needed: an enum without variants (z.enum([]) against
+   the empty union), an optional flag on a type that is not Option, two fields with one key *)
+Theorem C10_modules_premises_needed :
+  v_tags (compare_modules (plain_items p_empty_enum) (zod_items p_empty_enum)) = [TgShape] /\
+  v_tags (compare_modules (plain_items p_flag) (zod_items p_flag)) = [TgShape] /\
+  v_tags (compare_modules (plain_items p_dupkey) (zod_items p_dupkey)) = [TgShape].
+Proof. exact premises_needed. Qed.
 
 (* ---- non-vacuity ---- *)
 Example C10_ex_budgets : let t := TMap (TPrim (L "number")) (TTuple [TPrim (L "string"); TArr (TCustom (L "User"))]) in
@@ -204,11 +280,48 @@ Example C10_ex_project : proj_dom p_clean = true /\ has_enum p_clean = false /\
   v_tags (compare_modules (plain_items p_clean) (zod_items p_clean)) = [].
 Proof. exact clean_example. Qed.
 
+Example C10_ex_modules : proj_ok p_clean /\ List.length (plain_items p_clean) = 2 /\ List.length (zod_items p_clean) = 4.
+Proof. split; [exact p_clean_ok|split; reflexivity]. Qed.
+Example C10_ex_visitor : let t := TMap (TPrim (L "number")) (TTuple [TPrim (L "string"); TArr (TOpt (TCustom (L "User")))]) in
+  dom t = true /\ tsdepth t < 30 /\ parse_ex (zvisit [] t) = Some (zvisit_ex [] t).
+Proof. cbv zeta. split; [reflexivity|]. split; [vm_compute; repeat constructor|vm_compute; reflexivity]. Qed.
+Example C10_ex_member_text :
+  let f := {| m_key := L "nick"; m_opt := true; m_ty := TOpt (TPrim (L "string")) |} in
+  clean (m_ty f) /\ flag_ok f /\ zod_param_text [] f = L "z.string().optional().optional()" /\
+  plain_member_text [] f = L "string | null".
+Proof. cbv zeta. split; [repeat split; reflexivity|]. split; [intros _; reflexivity|]. split; reflexivity. Qed.
+
+Definition ex_struct : sdef := {| s_name := L "User"; s_fields :=
+  [{| m_key := L "id"; m_opt := false; m_ty := TPrim (L "number") |};
+   {| m_key := L "tags"; m_opt := false; m_ty := TArr (TPrim (L "string")) |}] |}.
+Example C10_ex_struct_text : Forall (field_line_ok []) (s_fields ex_struct) /\
+  struct_schema_text [] ex_struct =
+    L "z.object({" ++ nl ++ L "  id: z.coerce.number()," ++ nl ++ L "  tags: z.array(z.string())," ++ nl ++ L "})".
+Proof.
+  split; [|reflexivity]. repeat constructor; try reflexivity; vm_compute; repeat constructor.
+Qed.
+Example C10_ex_param_text :
+  let c := {| c_tname := L "Save"; c_params := [{| m_key := L "a"; m_opt := false; m_ty := TPrim (L "string") |};
+                                                 {| m_key := L "b"; m_opt := true; m_ty := TOpt (TPrim (L "boolean")) |}]; c_chans := [] |} in
+  Forall (field_line_ok []) (c_params c) /\
+  param_schema_text [] c = L "z.object({" ++ nl ++ L "  a: z.string(),b: z.coerce.boolean().optional().optional()," ++ nl ++ L "})".
+Proof.
+  cbv zeta. split; [|reflexivity]. repeat constructor; try reflexivity; vm_compute; repeat constructor.
+Qed.
+
 Print Assumptions C10_shapes_partial.
 Print Assumptions C10_shapes_field_partial.
 Print Assumptions C10_shapes_param_partial.
+Print Assumptions C10_shapes_field_text.
+Print Assumptions C10_shapes_param_text.
+Print Assumptions C10_member_text_denotes.
+Print Assumptions C10_struct_schema_text_denotes.
+Print Assumptions C10_param_schema_text_denotes.
+Print Assumptions C10_struct_schema_text_keys.
 Print Assumptions C10_plain_text_denotes.
 Print Assumptions C10_builder_text_denotes.
+Print Assumptions C10_visitor_text_denotes.
+Print Assumptions C10_visitor_text_depth.
 Print Assumptions C10_shapes.
 Print Assumptions C10_shapes_depth.
 Print Assumptions C10_json.
@@ -230,3 +343,5 @@ Print Assumptions C10_keys.
 Print Assumptions C10_keys_params.
 Print Assumptions C10_interface_renderers_equal.
 Print Assumptions C10_denotation_sweep.
+Print Assumptions C10_modules.
+Print Assumptions C10_modules_premises_needed.
